@@ -6,6 +6,7 @@ from typing import Dict, List, Set
 
 from ..absint import Interp
 from ..src import AnalysisError, M_IMPORTING, M_INIT
+from ..sym import walk as walk_
 from ..sym import A, C, N, contains, dotted, show, walk
 from . import template
 
@@ -259,8 +260,51 @@ def rule_X8(ctx) -> None:
         ctx.proved("X8", "traverse:nested-prefix", parser.loc(tr), f"{n_hand} hand-downs of the new name")
 
 
+def rule_X9(ctx) -> None:
+    """the type name split off a fully qualified reference keeps every component of a nested type: with a package it is the
+    remainder after the package (the regex group), without one it is the whole text less its leading dots - never only
+    the last component (".Outer.Inner" must stay "Outer.Inner", the class is OuterInner)"""
+    mod = ctx.repo.mod(M_IMPORTING)
+    fn = mod.func("parse_source_type_name")
+    ctx.analysed("parse_source_type_name")
+    arg = N(fn.args.args[0].arg)
+    paths = Interp(mod, fork_ifexp=True).run(fn)
+    ctx.count(len(paths))
+    bad = None
+    unknown = None
+    n = 0
+    for p in paths:
+        if p.outcome != "return" or p.value is None or p.value[0] != "tuple" or len(p.value[1]) != 2:
+            continue
+        n += 1
+        name = p.value[1][1]
+        if any(t[0] == "call" and dotted(t[1]).endswith(".group") for t in walk_(name)):
+            continue                               # the part the pattern captured after the package
+        calls_ = [t for t in walk_(name) if t[0] == "call" and t[1][0] == "a"]
+        meths = {t[1][2] for t in calls_}
+        if name == arg or (meths <= {"lstrip", "removeprefix", "strip"} and meths):
+            continue
+        if name[0] == "sub" and name[1] == arg and name[2][0] == "slice":
+            continue
+        if meths & {"rpartition", "rsplit", "split", "partition"} or (name[0] in ("sub", "item") and any(t[0] == "call" and t[1][0] == "a" and t[1][2] in ("rpartition", "rsplit", "split") for t in walk_(name))):
+            bad = bad or show(name)
+        else:
+            unknown = unknown or show(name)
+    cname = "parse_source_type_name:keeps-nested-components"
+    if not n:
+        ctx.inconclusive("X9", cname, "no (package, name) return found", mod.loc(fn))
+    elif bad:
+        ctx.refuted("X9", cname, bad[:60], mod.loc(fn),
+                    f"for a reference without a package the type name is taken as {bad}: only the last component survives, so a nested type of a package-less file ('.Outer.Inner') is "
+                    "referenced as 'Inner' while its class is generated as OuterInner", "a proto file without a package with a nested message used as a field type")
+    elif unknown:
+        ctx.inconclusive("X9", cname, f"name expression {unknown} not recognised", mod.loc(fn))
+    else:
+        ctx.proved("X9", cname, mod.loc(fn), f"{n} returning paths")
+
+
 def run(ctx) -> None:
-    for name, fn in (("X1", template.rule_X1), ("X2", rule_X2), ("X3", rule_X3), ("X4", rule_X4), ("X5", rule_X5), ("X6", rule_X6), ("X7", rule_X7), ("X8", rule_X8)):
+    for name, fn in (("X9", rule_X9), ("X1", template.rule_X1), ("X2", rule_X2), ("X3", rule_X3), ("X4", rule_X4), ("X5", rule_X5), ("X6", rule_X6), ("X7", rule_X7), ("X8", rule_X8)):
         ctx.rules_run.append(name)
         fn(ctx)
     from .c03 import rule_P7, rule_P13
